@@ -30,12 +30,12 @@ def _write_cfg(ctx, name, consts, tail):
 
 
 def _consts(nids=3, naddrs=3, filt=(), defect=True, maxlen=2, bad=False, dup=False, depth=2, sim=False, mixed=True,
-            burst=0, ordered=True, split=False, c0peer="a0", late=False, schema=False):
+            burst=0, ordered=True, split=False, c0peer="a0", late=False, schema=False, overlap=False):
     b = lambda x: "TRUE" if x else "FALSE"
     return collections.OrderedDict(
         Ids=_tla_set("i%d" % k for k in range(1, nids + 1)), Addrs=_tla_set("a%d" % k for k in range(1, naddrs + 1)),
         Filt=_tla_set(filt), DefectByAddr=b(defect), C0peer='"%s"' % c0peer, MaxLen=maxlen,
-        WithBad=b(bad), WithDup=b(dup), WithSplit=b(split), LateEvents=b(late), SchemaPlan=b(schema), GenDepth=depth,
+        WithBad=b(bad), WithDup=b(dup), WithSplit=b(split), LateEvents=b(late), SchemaPlan=b(schema), Overlap=b(overlap), GenDepth=depth,
         Sim=b(sim), Mixed=b(mixed), Burst=burst, Ordered=b(ordered))
 
 
@@ -303,13 +303,35 @@ def _after_model(ctx, quick, rnd, binary, defect, runs):
     wire = _scenarios(_thin(hs, 1, rnd)[:nw], len(scs), mode="wire", src="wire", policies=POLICIES)
     scs += wire
     gen_stats["wire"] = len(wire)
+    # steps placed INSIDE another one (wire mode, the driver's own debouncers): after a set-up refresh, a
+    # second event while the handler of the first batch is parked before it reads its frames, and a
+    # topology event / an immediate-refresh request, after another change of the cluster, while a
+    # refresh is held between reading the peer rows and applying them
+    ho, _ = _gen(ctx, "gen_overlap.cfg", _consts(defect=defect, depth=3, maxlen=1, overlap=True), workers=2)
+    if quick:
+        # a seeded sample, stratified: every held step (which event; refresh or topology event) and
+        # every kind of step arriving meanwhile occurs
+        ho.sort(key=lambda h: json.dumps(h["steps"], sort_keys=True))
+        groups = collections.OrderedDict()
+        for h in ho:
+            o, i = h["steps"][1], h["steps"][2]
+            key = (i["ov"], o["op"], json.dumps(o["evs"], sort_keys=True) if i["ov"] == "handler" else "", i["op"], i["evs"][0]["kind"] if i["evs"] else "")
+            groups.setdefault(key, []).append(h)
+        ho = []
+        for key, g in groups.items():
+            rnd.shuffle(g)
+            ho += g[:2 if key[0] == "handler" else 7]
+    over = _scenarios(ho, len(scs), mode="wire", src="overlap")
+    wire += over
+    scs += over
+    gen_stats["overlap"] = len(over)
     ctx.log("histories: %s" % gen_stats)
     byn = {s["n"]: s for s in scs}
 
     # ---- 3. the real Session
     recs = []
     total = dict(Scenarios=0, Steps=0, Errors=0, Timeouts=0)
-    for name, part, par in (("direct", direct, 48), ("wire", wire, 32)):
+    for name, part, par in (("direct", direct, 48), ("wire", wire, 48)):
         rc, out, summ, tp = _replay(ctx, binary, part, name, par=par, timeout=1500 if quick else 3000)
         if not summ:
             if "panic:" in out or "fatal error:" in out:
@@ -369,6 +391,10 @@ def _report(ctx, viol, drift, byn, by):
     for v in sorted(viol, key=lambda x: (x["sc"], x["k"])):
         sc = byn.get(v["sc"])
         for kind in sorted(v["kinds"]):
+            if kind == "policy-stale-host" and sc and any(r["k"] == v["k"] and r.get("ov") == "peers" for r in by.get(v["sc"], [])):
+                # two refreshes back to back (the second requested while the first was in flight): a host the
+                # first one connected to and the second one removed is offered again
+                kind = "policy-stale-host-connected-after-removal"
             kinds[kind] += 1
             if per_kind[kind] >= 8:
                 continue
